@@ -335,13 +335,13 @@ pub fn case_inproc(t: &mut Tape) -> CaseOut {
 }
 
 /// stage 2 with directly generated JSON over the full field ranges
-fn gen_json_state(t: &mut Tape) -> String {
+pub fn gen_json_state(t: &mut Tape) -> String {
     let id = |t: &mut Tape| format!("[{}]", (0..8).map(|_| t.below(256).to_string()).collect::<Vec<_>>().join(","));
     let acc = |t: &mut Tape| match t.below(4) {
         0 => "\"Unknown\"".to_string(),
         1 => "\"NS100\"".to_string(),
         2 => "\"Reserved\"".to_string(),
-        _ => format!("{{\"ProfileSpecific\":{}}}", t.below(126)),
+        _ => format!("{{\"ProfileSpecific\":{}}}", t.below(256)),
     };
     let quality = |t: &mut Tape| format!("{{\"clock_class\":{},\"clock_accuracy\":{},\"offset_scaled_log_variance\":{}}}", t.below(256), acc(t), t.below(65536));
     let dur = |t: &mut Tape| match t.below(4) {
@@ -353,7 +353,7 @@ fn gen_json_state(t: &mut Tape) -> String {
     let ts = |t: &mut Tape| match t.below(5) {
         0 => "\"Gnss\"".to_string(),
         1 => "\"InternalOscillator\"".to_string(),
-        2 => format!("{{\"ProfileSpecific\":{}}}", t.below(15)),
+        2 => format!("{{\"ProfileSpecific\":{}}}", t.below(256)),
         3 => format!("{{\"Unknown\":{}}}", t.below(256)),
         _ => "\"Reserved\"".to_string(),
     };
